@@ -18,7 +18,7 @@ PROPERTIES = ["C42", "C43", "C44"]
 SPEC = "Reliable"
 
 P2P_CONST = """  W = %(W)d
-  N = %(N)d
+  N = %(N)d%(ChunksLine)s
   MaxWin = 10000
   F = %(F)d
   TP = %(TP)d
@@ -42,6 +42,14 @@ WP_CONST = """  W = %(W)d
 """
 
 
+class P(dict):
+    """Constants of a P2P configuration; Chunks (a name defined in MC_P2PCh / Gen_P2PCh) switches chunking on."""
+    def __missing__(self, k):
+        if k == "ChunksLine":
+            return ("\n  Chunks <- %s" % self["Chunks"]) if self.get("Chunks") else ""
+        raise KeyError(k)
+
+
 def write_cfg(ctx, name, text):
     p = ctx.tmp(name)
     with open(p, "w") as f:
@@ -51,7 +59,7 @@ def write_cfg(ctx, name, text):
 
 def gen(ctx, module, const_tpl, params, depth, simulate=None, timeout=600, tag="", cap=None):
     """Run the behaviour generator; returns the list of (distinct) behaviours."""
-    cfg = ("SPECIFICATION GSpec\nCONSTANTS\n" + const_tpl % params + "  Depth = %d\n  Dice = %d\nCONSTRAINT Emit\n"
+    cfg = ("SPECIFICATION GSpec\nCONSTANTS\n" + const_tpl % P(params) + "  Depth = %d\n  Dice = %d\nCONSTRAINT Emit\n"
            % (depth, 3 if simulate else 1))
     name = "%s_%s.cfg" % (module, tag)
     path = write_cfg(ctx, name, cfg)
@@ -93,10 +101,11 @@ W2 = '{"w1", "w2"}'
 
 def judge(ctx, kind, trace, nlines, W, tag, wset=W3):
     """Monitor (verdict) + conformance (drift) on one recorded trace."""
-    mon_mod, tr_mod = ("Mon_P2P", "Trace_P2P") if kind == "p2p" else ("Mon_WP", "Trace_WP")
+    mon_mod, tr_mod = {"p2p": ("Mon_P2P", "Trace_P2P"), "p2pch": ("Mon_P2PCh", "Trace_P2PCh"), "wp": ("Mon_WP", "Trace_WP")}[kind]
     workers = "  Workers = %s\n" % wset
-    mon_cfg = "SPECIFICATION Spec\nCONSTANTS\n" + ("  W = %d\n" % W if kind == "p2p" else workers) + "CHECK_DEADLOCK FALSE\n"
-    tr_cfg = "SPECIFICATION TSpec\nCONSTANTS\n  W = %d\n  MaxWin = 10000\n" % W + (workers if kind == "wp" else "") + "CHECK_DEADLOCK FALSE\n"
+    mon_cfg = "SPECIFICATION Spec\nCONSTANTS\n" + ("  W = %d\n" % W if kind != "wp" else workers) + "CHECK_DEADLOCK FALSE\n"
+    tr_cfg = ("SPECIFICATION TSpec\nCONSTANTS\n  W = %d\n  MaxWin = 10000\n" % W + (workers if kind == "wp" else "  Defects = {}\n")
+              + "CHECK_DEADLOCK FALSE\n")
     mname, tname = "%s_%s.cfg" % (mon_mod, tag), "%s_%s.cfg" % (tr_mod, tag)
     mfiles = {"trace.ndjson": trace, mname: write_cfg(ctx, mname, mon_cfg)}
     tfiles = {"trace.ndjson": trace, tname: write_cfg(ctx, tname, tr_cfg)}
@@ -147,16 +156,35 @@ def design_p2p(ctx, pid):
     quick = ctx.quick
     out = {}
     mc = dict(W=2, N=2, F=1, TP=0, TC=1, TG=0, Orders='{"pc", "cp"}') if quick else dict(W=2, N=3, F=2, TP=1, TC=2, TG=1, Orders='{"pc", "cp"}')
-    cfg = ("SPECIFICATION Spec\nCONSTANTS\n" + P2P_CONST % mc + "VIEW View\n"
-           "INVARIANTS InFlightIsNext Watermarks NoFailure ConfirmedOnce DemandRespected BufferInWindow\n"
-           "PROPERTIES DeliveryOrder ConfirmStepwise EmitUnderDemand NeverBufFull\n")
+    props = ("VIEW View\nINVARIANTS InFlightIsNext Watermarks NoFailure ConfirmedOnce DemandRespected BufferInWindow\n"
+             "PROPERTIES DeliveryOrder ConfirmStepwise EmitUnderDemand NeverBufFull\n")
+    cfg = "SPECIFICATION Spec\nCONSTANTS\n" + P2P_CONST % P(mc) + props
     r = ctx.tlc_must_hold(SPEC, "MC_P2P_run.cfg", module="MC_P2P", deadlock_check=False, timeout=2400, workers=4 if quick else 8,
                           files={"MC_P2P_run.cfg": write_cfg(ctx, "MC_P2P_run.cfg", cfg)}, name="mc-p2p", heap="12g")
     out["mc"] = dict(constants=mc, distinct=r.distinct, generated=r.generated, depth=r.depth)
     ctx.log("design P2P: %d distinct states, all invariants hold" % r.distinct)
+    # chunking on (second configuration of DESIGN.md C42/C43)
+    ch = (dict(W=2, N=2, Chunks="Ch21", F=1, TP=0, TC=1, TG=0, Orders='{"pc"}') if quick
+          else dict(W=2, N=3, Chunks="Ch212", F=1, TP=0, TC=1, TG=0, Orders='{"pc", "cp"}'))
+    cfg = "SPECIFICATION Spec\nCONSTANTS\n" + P2P_CONST % P(ch) + props
+    r = ctx.tlc_must_hold(SPEC, "MC_P2PCh_run.cfg", module="MC_P2PCh", deadlock_check=False, timeout=3000, workers=4 if quick else 8,
+                          files={"MC_P2PCh_run.cfg": write_cfg(ctx, "MC_P2PCh_run.cfg", cfg)}, name="mc-p2pch", heap="12g")
+    out["mc_chunking"] = dict(constants=ch, distinct=r.distinct, generated=r.generated, depth=r.depth)
+    ctx.log("design P2P with chunking: %d distinct states, all invariants hold" % r.distinct)
+    if not quick or pid == "C43":
+        # the repaired defect must still be exhibited by its Defects branch (otherwise the finding / the model is stale)
+        d = dict(W=2, N=3, Chunks="Ch212", F=0, TP=0, TC=1, TG=0, Orders='{"pc"}')
+        cfg = ("SPECIFICATION Spec\nCONSTANTS\n" + (P2P_CONST % P(d)).replace("Defects = {}", 'Defects = {"RegisterRaisesDemand"}')
+               + "VIEW View\nINVARIANTS DemandRespected\n")
+        r = ctx.tlc(SPEC, "MC_P2PCh_defect.cfg", module="MC_P2PCh", deadlock_check=False, timeout=1500, workers=4, expect_fail=True,
+                    files={"MC_P2PCh_defect.cfg": write_cfg(ctx, "MC_P2PCh_defect.cfg", cfg)}, name="mc-p2pch-defect", heap="8g")
+        if r.violated != "DemandRespected":
+            raise vlib.Infra("Defects={RegisterRaisesDemand} no longer violates DemandRespected (stale finding or model): %s" % r.violated)
+        out["finding_RegisterRaisesDemand"] = dict(constants=d, violated=r.violated, depth=r.depth, generated=r.generated)
+        ctx.log("design: the Defects branch RegisterRaisesDemand (goakt before the fix) violates DemandRespected at depth %d" % r.depth)
     if pid == "C42":
         lv = dict(W=2, N=2, F=1, TP=1000, TC=1000, TG=1000, Orders='{"pc", "cp"}') if quick else dict(W=2, N=3, F=2, TP=1000, TC=1000, TG=1000, Orders='{"pc", "cp"}')
-        cfg = ("SPECIFICATION LiveSpec\nCONSTANTS\n" + (P2P_CONST % lv).replace("QuietTicks = FALSE", "QuietTicks = TRUE") +
+        cfg = ("SPECIFICATION LiveSpec\nCONSTANTS\n" + (P2P_CONST % P(lv)).replace("QuietTicks = FALSE", "QuietTicks = TRUE") +
                "VIEW LiveView\nINVARIANTS InFlightIsNext Watermarks NoFailure\nPROPERTIES EventuallyAllConfirmed\n")
         r = ctx.tlc_must_hold(SPEC, "Live_P2P_run.cfg", module="MC_P2P", deadlock_check=False, timeout=2400, workers=4,
                               files={"Live_P2P_run.cfg": write_cfg(ctx, "Live_P2P_run.cfg", cfg)}, name="live-p2p", heap="12g")
@@ -198,7 +226,8 @@ def run(ctx, pid):
         for p in plans:
             W, tag = p["W"], p["tag"]
             wset = p.get("workers", W3)
-            env = {"VERIF_WORKERS": ",".join(re.findall(r"w\d", wset))}
+            pkind = p.get("kind", kind)
+            env = {"VERIF_WORKERS": ",".join(re.findall(r"w\d", wset)), "VERIF_CHUNKS": p.get("chunks", "")}
             trace = ctx.tmp("trace-%s.ndjson" % tag)
             open(trace, "w").close()
             stats = {"replay": []}
@@ -206,7 +235,7 @@ def run(ctx, pid):
                 bfile = ctx.tmp("behaviours-%s-%d.ndjson" % (tag, gi))
                 part = ctx.tmp("part-%s-%d.ndjson" % (tag, gi))
                 vlib.write_ndjson(bfile, behaviours)
-                pr = ctx.run([exe, kind + "-replay", bfile, part, str(W), str(N)], timeout=900, env=env)
+                pr = ctx.run([exe, pkind + "-replay", bfile, part, str(W), str(N)], timeout=900, env=env)
                 st = json.loads(pr.stdout.strip().splitlines()[-1])
                 st["N"] = N
                 stats["replay"].append(st)
@@ -222,14 +251,14 @@ def run(ctx, pid):
                 samples.append({"W": W, "N": N, "behaviour": brief(behaviours[len(behaviours) // 2], kind == "wp")})
             if p["free_runs"]:
                 ftrace = ctx.tmp("free-%s.ndjson" % tag)
-                pr = ctx.run([exe, kind + "-free", ftrace, str(W), str(p["free_n"]), str(ctx.seed * 1000 + W), str(p["free_runs"])], timeout=900, env=env)
+                pr = ctx.run([exe, pkind + "-free", ftrace, str(W), str(p["free_n"]), str(ctx.seed * 1000 + W), str(p["free_runs"])], timeout=900, env=env)
                 stats["free"] = json.loads(pr.stdout.strip().splitlines()[-1])
                 n_free += p["free_runs"]
                 with open(trace, "a") as out, open(ftrace) as inp:
                     out.write(inp.read())
             rows = vlib.read_ndjson(trace)
             events += len(rows)
-            mism, drift = judge(ctx, kind, trace, len(rows), W, tag, wset)
+            mism, drift = judge(ctx, pkind, trace, len(rows), W, tag, wset)
             stats["monitor_mismatches"] = len(mism)
             stats["conformance_drift"] = drift
             results.append({"W": W, **stats})
@@ -305,6 +334,16 @@ def plan(ctx, kind):
         for W, b in sim.items():
             plans.append(dict(W=W, tag="w%d" % W, groups=([(3, bfs)] if W == 2 else []) + [(4, b)],
                               free_runs=(15 if quick else 200), free_n=3 + 2 * W))
+        # chunking on: message k needs Chunks[k] chunks of 1024 bytes (real payloads of that size)
+        chunked = [("Ch212", 2, "2,1,2"), ("Ch132", 3, "1,3,2")]
+        for name, W, pattern in ([chunked[ctx.seed % 2]] if quick else chunked + [("Ch2132", 3, "2,1,3,2")]):
+            n = len(pattern.split(","))
+            b = gen(ctx, "Gen_P2PCh", P2P_CONST, dict(W=W, N=n, Chunks=name, F=2, TP=2, TC=6, TG=1, Orders='{"pc", "cp"}'), 34,
+                    simulate="num=%d" % (25 if quick else 500), tag="sim-%s" % name, timeout=1500, cap=110 if quick else 3000)
+            if len(b) < 30:
+                raise vlib.Infra("behaviour generation produced too little for %s (%d)" % (name, len(b)))
+            ctx.log("behaviours with chunking %s (W=%d): %d random walks" % (pattern, W, len(b)))
+            plans.append(dict(W=W, tag=name.lower(), kind="p2pch", chunks=pattern, groups=[(n, b)], free_runs=(8 if quick else 120), free_n=n))
     else:
         small = dict(N=2, F=1, TP=0, TC=1, TG=0, Initial="Init1", Leavers='{"w1"}', Workers=W2)
         walk = dict(N=4, F=2, TP=2, TC=6, TG=1, Initial="Init2", Leavers='{"w1", "w2"}', Workers=W3)
